@@ -855,7 +855,31 @@ func ruleR18_11(w *World, r *Report) {
 	sortFns(fns)
 	t := newTextCtx(w)
 	num := string(rune(mNum))
-	for _, fn := range fns {
+	for _, printer := range fns {
+		// the terms may be written by a helper handed the cost literals (`pbTerms(s.minLits, s.minWeights)`, shared
+		// with the printer of a constraint): the term is looked for there
+		fn := printer
+		indexesCost := false
+		allInstrs(printer, func(ins ssa.Instruction) {
+			if ia, isIA := ins.(*ssa.IndexAddr); isIA {
+				if _, isF := isFieldLoad(ia.X, "", "minLits"); isF {
+					indexesCost = true
+				}
+			}
+		})
+		if !indexesCost {
+			for _, ci := range callsIn(printer) {
+				h := ci.Common().StaticCallee()
+				if h == nil || w.PkgName(h) != "solver" || len(h.Blocks) == 0 {
+					continue
+				}
+				for _, a := range ci.Common().Args {
+					if _, isF := isFieldLoad(a, "", "minLits"); isF {
+						fn = h
+					}
+				}
+			}
+		}
 		// the term: a Sprintf / Fprintf inside the loop over the cost literals whose text has a variable `x<number>`
 		var term *ssa.Call
 		var args []ssa.Value
@@ -921,9 +945,66 @@ func ruleR18_11(w *World, r *Report) {
 			term, args, pieces, alts = c, as, parseFormat(f), texts
 		}
 		n++
-		key := w.FuncName(fn) + " objective term"
+		key := w.FuncName(printer) + " objective term"
 		if term == nil {
-			r.Unk("R18.11", key, w.Pos(fn.Pos()), "no formatted term with a variable `x<number>` found in the loop over the cost literals")
+			// the term may be written piece by piece (`sb.WriteString(" ~x")` / `sb.WriteString(" x")`): both markers must
+			// be among the constants written in the loop over the cost literals, `~` under the sign test
+			marked, plain := false, false
+			var bad []string
+			for _, h := range loopHeaders(fn) {
+				body := loopBlocks(fn, h)
+				overCost := false
+				for b := range body {
+					for _, ins := range b.Instrs {
+						if ia, isIA := ins.(*ssa.IndexAddr); isIA {
+							if _, isF := isFieldLoad(ia.X, "", "minLits"); isF {
+								overCost = true
+							}
+							if _, isP := ia.X.(*ssa.Parameter); isP && typeShort(ia.X.Type()) == "[]solver.Lit" {
+								overCost = true
+							}
+						}
+					}
+				}
+				if !overCost {
+					continue
+				}
+				for b := range body {
+					for _, ins := range b.Instrs {
+						for _, op := range ins.Operands(nil) {
+							if op == nil || *op == nil {
+								continue
+							}
+							sv, ok := constString(*op)
+							if !ok {
+								continue
+							}
+							if strings.Contains(sv, "~") {
+								marked = true
+								okSign := false
+								for _, ec := range dominatingConds(b) {
+									if isNegativeLiteralTest(w, ec) {
+										okSign = true
+									}
+								}
+								if !okSign {
+									bad = append(bad, "the text `~` is produced at "+w.InstrPos(ins)+" without the test `the literal is negative`")
+								}
+							} else if strings.HasSuffix(strings.TrimSpace(sv), "x") {
+								plain = true
+							}
+						}
+					}
+				}
+			}
+			switch {
+			case len(bad) > 0:
+				r.Bad("R18.11", key, w.Pos(fn.Pos()), strings.Join(dedupe(bad), "; "))
+			case marked && plain:
+				r.OK("R18.11", key, w.Pos(fn.Pos()), "term written piece by piece; `~` under the sign test")
+			default:
+				r.Unk("R18.11", key, w.Pos(fn.Pos()), "no formatted term with a variable `x<number>` found in the loop over the cost literals")
+			}
 			continue
 		}
 		var bad []string
@@ -1528,6 +1609,7 @@ type appendDispatch struct {
 	forceCall   *ssa.Call
 	forceFn     *ssa.Function
 	addCall     *ssa.Call
+	addStore    *ssa.Store // the storing step written out in AppendClause itself
 }
 
 func findAppendDispatch(w *World) *appendDispatch {
@@ -1571,6 +1653,11 @@ func findAppendDispatch(w *World) *appendDispatch {
 			if typeShort(a.Type()) == "*solver.Clause" && h.Signature.Results().Len() == 0 && len(c.Call.Args) == 2 && w.effects().WritesAny(h, "solver.watcherList.origClauses") {
 				d.addCall = c
 			}
+		}
+	}
+	for _, gs := range growthSites(fn) {
+		if gs.Field == "solver.watcherList.origClauses" && !inLoop(fn, gs.Store.Block()) {
+			d.addStore = gs.Store
 		}
 	}
 	return d
@@ -1668,7 +1755,7 @@ func ruleR9_14(w *World, r *Report) {
 	r.Rule("R9.14", "Solver.AppendClause returns without taking the constraint in (neither added, nor its literals forced, nor Unsat recorded) only where the constraint is known to hold already: the merge of repeated variables answered nil, or the weight already obtained reaches the degree", 1)
 	d := findAppendDispatch(w)
 	key := "(*solver.Solver).AppendClause drops a constraint only when it already holds"
-	if d == nil || d.forceCall == nil || d.addCall == nil || d.lower == nil {
+	if d == nil || d.forceCall == nil || (d.addCall == nil && d.addStore == nil) || d.lower == nil {
 		r.Unk("R9.14", key, "-", "the dispatch of AppendClause (lower bound test, add call, force call) was not found")
 		return
 	}
@@ -1698,6 +1785,9 @@ func ruleR9_14(w *World, r *Report) {
 				st.facts["taken"] = "yes"
 			}
 		case *ssa.Store:
+			if x == d.addStore {
+				st.facts["taken"] = "yes"
+			}
 			if qualField(x.Addr) == "solver.Solver.status" {
 				if v, ok := constInt(x.Val); ok && v == unsat {
 					st.facts["taken"] = "yes"
